@@ -64,6 +64,12 @@ pub struct CComment {
 }
 
 pub struct Canon {
+    /// doc blocks for which the formatter's output may depend on HashMap iteration order (overlapping alignment
+    /// groups): blocks with a `---|` continuation line or with two tags on one line
+    pub risky_doc_blocks: usize,
+    /// comment lines that start with four or more dashes followed by other text (`----x`): the formatter inserts a
+    /// space after the third dash, which changes how the line parses
+    pub dash_run_lines: usize,
     /// number of empty statements (a lone `;`)
     pub n_empty_stats: usize,
     /// number of comment lines that hold two doc-tag starts (`---@a x---@b y`); the formatter's output for such a
@@ -247,6 +253,8 @@ pub fn canon_tree(tree: &LuaSyntaxTree, q: Quot) -> Canon {
     let mut inner_regions = vec![];
     let mut multi_tag_lines = 0usize;
     let mut n_empty_stats = 0usize;
+    let mut dash_run_lines = 0usize;
+    let mut risky_doc_blocks = 0usize;
     let mut n_stats = 0usize;
     let mut syntax_errors = 0;
     let mut doc_errors = 0;
@@ -286,20 +294,33 @@ pub fn canon_tree(tree: &LuaSyntaxTree, q: Quot) -> Canon {
                         })
                         .map(|c| dump_doc_item(&c))
                         .collect();
+                    for l in n.text().to_string().lines() {
+                        let t = l.trim_start();
+                        let dashes = t.chars().take_while(|c| *c == '-').count();
+                        if dashes >= 4 && dashes < t.chars().count() {
+                            dash_run_lines += 1;
+                        }
+                    }
                     let mut starts = 0;
+                    let mut risky = false;
                     for el in n.descendants_with_tokens() {
                         if let rowan::NodeOrToken::Token(t) = el {
                             match t.kind().to_token() {
                                 LuaTokenKind::TkEndOfLine => starts = 0,
+                                LuaTokenKind::TkDocContinueOr => risky = true,
                                 LuaTokenKind::TkDocStart | LuaTokenKind::TkDocLongStart => {
                                     starts += 1;
                                     if starts == 2 {
                                         multi_tag_lines += 1;
+                                        risky = true;
                                     }
                                 }
                                 _ => {}
                             }
                         }
+                    }
+                    if risky {
+                        risky_doc_blocks += 1;
                     }
                     let parent = n.parent().map(|p| p.kind().to_syntax()).unwrap_or(LuaSyntaxKind::None);
                     if matches!(holder_group(parent).as_str(), "stat-header" | "expr" | "table-field" | "name-or-attrib") {
@@ -396,7 +417,7 @@ pub fn canon_tree(tree: &LuaSyntaxTree, q: Quot) -> Canon {
             _ => {}
         }
     }
-    Canon { n_empty_stats, multi_tag_lines, inner_regions, toks, comments, n_stats, syntax_errors, doc_errors, first_syntax_error }
+    Canon { risky_doc_blocks, dash_run_lines, n_empty_stats, multi_tag_lines, inner_regions, toks, comments, n_stats, syntax_errors, doc_errors, first_syntax_error }
 }
 
 fn next_non_trivia_is_rbrace(t: &emmylua_parser::LuaSyntaxToken) -> bool {
@@ -683,6 +704,9 @@ pub fn compare_tokens(clause: &'static str, a_text: &str, a: &Canon, b_text: &st
         if pair(&|x| x == "[", &|y| is_long(y)) {
             return fam(6, "tokens:bracket-longstring-glued");
         }
+        if near.iter().any(|t| t.text == "->") && near.iter().any(|t| t.text == "do") {
+            return fam(7, "tokens:lambda-do-body-glued(LuaJITExt)");
+        }
         if pair(&|x| x == "global", &|y| y == "function") {
             return fam(7, "tokens:global-function-glued");
         }
@@ -834,6 +858,9 @@ pub fn compare(a_text: &str, a: &Canon, b_text: &str, b: &Canon, cfg: &LuaFormat
                 if a.multi_tag_lines > 0 {
                     return Some("C:doc-line-with-second-comment-prefix".to_string());
                 }
+                if a.dash_run_lines > 0 {
+                    return Some("C:dash-run-line-respaced".to_string());
+                }
                 if matches!(holder_group(c.parent).as_str(), "stat-header" | "expr" | "table-field" | "name-or-attrib") || inner_comment_at(a_text, a, off).is_some() {
                     return Some("inner-comment".to_string());
                 }
@@ -930,7 +957,7 @@ pub fn compare(a_text: &str, a: &Canon, b_text: &str, b: &Canon, cfg: &LuaFormat
             return Some(Diff {
                 loc: a_text.len(),
                 clause: "C",
-                sig: format!("C:doc-error-introduced:{}", c.map(comment_kind).unwrap_or_default()),
+                sig: if a.dash_run_lines > 0 { "C:dash-run-line-respaced".to_string() } else { format!("C:doc-error-introduced:{}", c.map(comment_kind).unwrap_or_default()) },
                 msg: format!("output has a doc-comment parse error the input did not have, near {}", c.map(|c| ctx(b_text, c.off)).unwrap_or_default()),
             });
         }
@@ -954,7 +981,7 @@ pub fn compare(a_text: &str, a: &Canon, b_text: &str, b: &Canon, cfg: &LuaFormat
         return Some(Diff {
             loc: xa.map(|x| x.0.off).unwrap_or(0),
             clause: "C",
-            sig: format!("C:doc-structure:{kind}"),
+            sig: if a.dash_run_lines > 0 { "C:dash-run-line-respaced".to_string() } else { format!("C:doc-structure:{kind}") },
             msg: format!(
                 "a doc comment parses differently: input item {} near {}; output item {} near {}",
                 xa.map(|x| x.1.1.as_str()).unwrap_or(""),
